@@ -54,10 +54,28 @@ void sim_note_violation(const char *cls, const char *fmt, ...)
     if (g_nviol <= 20) { fprintf(g_out, "v %s %s\n", cls, buf); fflush(g_out); }
 }
 
+static void emit_trace(void)
+{
+    fprintf(g_out, "tr %zu", g_trace_n);
+    for (size_t i = 0; i < g_trace_n; i++) fprintf(g_out, " %u:%u:%u", g_trace[i].kind, g_trace[i].nalt, g_trace[i].choice);
+    fprintf(g_out, "\npt %zu", g_preempt_trace_n);
+    for (size_t i = 0; i < g_preempt_trace_n; i++) fprintf(g_out, " %llu", (unsigned long long)g_preempt_trace[i]);
+    fputc('\n', g_out);
+}
+
+static int g_dying;
+static void death_dump(void)
+{
+    /* best effort: the schedule taken so far, so that a crash can be replayed from explicit decisions */
+    if (g_dying++) return;
+    if (g_emit_trace && g_sim_active) { fputc('\n', g_out); emit_trace(); fflush(g_out); }
+}
+
 void sim_fatal(const char *verdict, const char *fmt, ...)
 {
     char buf[600];
     va_list ap; va_start(ap, fmt); vsnprintf(buf, sizeof buf, fmt, ap); va_end(ap);
+    death_dump();
     fprintf(g_out, "fatal %s %s\ndone %s FATAL\n", verdict, buf, g_plan_id);
     fflush(g_out);
     _exit(3);
@@ -67,7 +85,7 @@ static void sig_handler(int sig)
 {
     char b[256];
     int n = snprintf(b, sizeof b, "\nfatal SIGNAL %d %s\ndone %s FATAL\n", sig, sig == SIGALRM ? "wall-clock watchdog" : "signal in kalign code", g_plan_id);
-    if (g_out) fflush(g_out);
+    if (g_out) { death_dump(); fflush(g_out); }
     if (write(g_outfd, b, (size_t)n) < 0) { }
     if (sig != SIGALRM) { void *bt[48]; int k = backtrace(bt, 48); backtrace_symbols_fd(bt, k, 2); }
     _exit(sig == SIGALRM ? 5 : 4);
@@ -317,13 +335,7 @@ static void run_plan(void)
     alarm(0);
     simfs_close_std();
     fprintf(g_out, "ev %016llx %llu\n", (unsigned long long)hooks_event_hash(), (unsigned long long)hooks_event_count());
-    if (g_emit_trace) {
-        fprintf(g_out, "tr %zu", g_trace_n);
-        for (size_t i = 0; i < g_trace_n; i++) fprintf(g_out, " %u:%u:%u", g_trace[i].kind, g_trace[i].nalt, g_trace[i].choice);
-        fprintf(g_out, "\npt %zu", g_preempt_trace_n);
-        for (size_t i = 0; i < g_preempt_trace_n; i++) fprintf(g_out, " %llu", (unsigned long long)g_preempt_trace[i]);
-        fputc('\n', g_out);
-    }
+    if (g_emit_trace) emit_trace();
     if (g_hooks_log_on) hooks_emit_log(g_out, 100000);
     fprintf(g_out, "pb");
     for (int i = 0; i < PR__N; i++) if (g_probe[i]) fprintf(g_out, " %s=%llu", g_probe_name[i], (unsigned long long)g_probe[i]);
@@ -400,6 +412,9 @@ int main(int argc, char **argv)
     sigaction(SIGABRT, &sa, NULL);
 #endif
     hooks_install();
+#ifdef SIM_ASAN
+    __sanitizer_set_death_callback(death_dump);
+#endif
 
     size_t sz = (size_t)1 << 30;
     void *stk = mmap(NULL, sz, PROT_READ | PROT_WRITE, MAP_PRIVATE | MAP_ANONYMOUS | MAP_NORESERVE | MAP_STACK, -1, 0);
